@@ -270,8 +270,20 @@ def _tls_run(case, deliver):
                 tail = out  # TLS 1.3: the client's Finished; TLS 1.2: empty
                 break
             if out:
-                conn.tcp.feed(out)
+                # the client's handshake flights are ciphertext as well: whole, cut at the given offsets, or byte by byte
+                hs = case.get("hs") if deliver != "records" else None
+                hcuts = list(range(1, len(out))) if hs == "bytes" else sorted({c for c in (hs or []) if 0 < c < len(out)})
+                prev_ = 0
+                for c in hcuts:
+                    conn.tcp.feed(out[prev_:c])
+                    prev_ = c
+                    if case.get("settle"):
+                        await vloop.settle(1)
+                conn.tcp.feed(out[prev_:])
             await vloop.settle(3)
+        if not cl.handshaken:
+            # the handshake did not complete under this delivery: that is the outcome (nothing served)
+            return b"<no TLS session: " + repr(cl.error).encode()[:60] + b">", [], [], 0, 0
         # the request as separate TLS records, produced before anything else is delivered
         recs = []
         for pc in pieces:
@@ -337,6 +349,9 @@ def enum_tls(tier):
                 yield {"req": req, "tls": tls, "mw": mw, "cuts": [], "settle": False, "fin": True}
                 for k in (3, 9, 15, 21):
                     yield {"req": req, "tls": tls, "mw": mw, "cuts": [], "frac": [k / 24], "settle": bool(k % 2), "fin": True}
+                if req in (0, 3):
+                    for hs in ("bytes", [1], [2], [5], [6], [1, 6], [40], [1, 2, 3, 4, 5, 6, 7]):
+                        yield {"req": req, "tls": tls, "mw": mw, "cuts": [], "frac": [0.5], "settle": hs != "bytes", "hs": hs}
                 for k in range(1, 24 if tier == "quick" else 64):
                     d = 24 if tier == "quick" else 64
                     yield {"req": req, "tls": tls, "mw": mw, "cuts": [], "frac": [k / d], "settle": bool(k % 2)}
@@ -348,7 +363,8 @@ def enum_tls(tier):
 def tls_random(draw):
     return {"req": draw(st.integers(0, len(TLS_REQS) - 1)), "tls": draw(st.sampled_from(["1.3", "1.3", "1.2"])),
             "mw": draw(st.booleans()), "cuts": sorted(set(draw(st.lists(st.integers(1, 400), max_size=6)))),
-            "settle": draw(st.booleans()), "fin": draw(st.integers(0, 3)) == 0}
+            "settle": draw(st.booleans()), "fin": draw(st.integers(0, 3)) == 0,
+            "hs": draw(st.one_of(st.none(), st.none(), st.lists(st.integers(1, 300), min_size=1, max_size=3), st.just([1])))}
 
 
 def _nontrivial(case, v):
@@ -385,6 +401,8 @@ def _lab_tls(case, v):
     fl = v.info.get("finished_len", 0)
     if not cuts:
         out.append("one-read")
+    if case.get("hs"):
+        out.append("handshake-cut")
     if fl and all(c > fl for c in cuts):
         out.append("finished-coalesced-with-appdata")
     if v.info.get("u"):
